@@ -124,6 +124,29 @@ def run_case(a):
                     only_a = [" ".join(c[:12]) for c in da if c not in db][:2]
                     only_b = [" ".join(c[:12]) for c in db if c not in da][:2]
                     viol.append(("C18 unrelated-declaration-changed file=%s mode=%s" % (f, mode), "%s: declarations not involving the mapped names differ: mapped-only %s, unmapped-only %s" % (f, only_a, only_b), None))
+        # (4) the table is configuration: replacing every target (same names) and re-running WITHOUT --force into the same
+        #     output directory must re-render every mapped position with the new targets
+        rot = {"string": "number", "number": "boolean", "boolean": "string"}
+        names_ = list(table)
+        shifted = {names_[k]: table[names_[(k + 1) % len(names_)]] for k in range(len(names_))}     # targets exchanged between the names
+        for table2 in ([{n: rot[m] for n, m in table.items()}] + ([shifted] if shifted != table else [])):
+          gc = proj.generate(cli, None, mode=mode, config={"type_mappings": table2}, root=ga.root, tag="c18c")
+          if gc.run.rc == 0:
+              from .. import tsmod
+              oc = tsmod.Output(gc.out)
+              stale = 0
+              for (i, site, got, note) in c05.observe(oc, types, mode):
+                  t2 = subst(tmap[i], table2)
+                  if c05.accept(t2, site, mode, got):
+                      continue
+                  sigs = defects.classify_c05(t2, site, mode, got, note)
+                  if sigs and all(s.startswith(("ts-text ", "zod-schema ")) for s in sigs):
+                      continue
+                  stale += 1
+                  if stale == 1:
+                      viol.append(("C18 retargeted-table-not-applied-on-rerun %s %s" % (mode, site),
+                                   "table %s replaced by %s, non-forced re-run (stdout tail %r): `%s` at the %s site still reads %s" % (
+                                       table, table2, gc.run.out.strip().splitlines()[-1][:50] if gc.run.out.strip() else "", rg.rust(tmap[i]), site, sh.show(got) if got else "<nothing>"), i))
         return {"viol": viol, "ok": ok, "n": len(obs), "files": files}
     finally:
         ga.cleanup()
@@ -138,6 +161,10 @@ def run(tier):
     tables = []
     for n in NAMES:
         tables.append({n: TARGETS[len(tables) % 3]})
+    # tables in which several names share one target (all of them move together when the table is retargeted)
+    tables.append({"PathBuf": "string", "Uuid": "string"})
+    tables.append({"PathBuf": "number", "Uuid": "number", "Decimal": "number", "Url": "number"})
+    tables.append({"Uuid": "string", "Url": "number"})
     for _ in range(6 if tier == "quick" else 150):
         k = rnd.randint(2, 3)
         tables.append({n: rnd.choice(TARGETS) for n in rnd.sample(NAMES, k)})
